@@ -49,6 +49,8 @@ func (t *fnType) coq() string {
 		return "list Z"
 	case "view":
 		return "view"
+	case "raw":
+		return t.name
 	case "slice":
 		if t.elem.k == "slice" {
 			return "list view"
@@ -304,13 +306,22 @@ type fnFunc struct {
 	zeroType  string
 	pure      bool
 	fuel      bool
+	extras    []*fnExtra // oracle / external function arguments, in order
 	tparams   []string
 	state     int // 0 new, 1 busy, 2 done, 3 lost
 	text      string
 	lostMsg   string
 }
 
+type fnExtra struct {
+	key  string // "append" or "pkg.F"
+	name string // Coq name
+	typ  string // Coq type (set when the first call is translated)
+	tps  []string
+}
+
 type fnGen struct {
+	externs map[string]bool // "pkg.F": calls are translated as calls of a function argument
 	file    *ast.File
 	funcs   map[string]*fnFunc // by spec and by call name
 	byCall  map[string]*fnFunc // "gcd", "pushUp" (method name)
@@ -355,6 +366,8 @@ type fnCtx struct {
 	synthLim map[ast.Node]*fnVar
 	loopDone map[ast.Node]string
 	loopInfo map[string]*loopInfo
+	extras   map[string]*fnVar // by key
+	fat      map[*fnVar]*fnVar // slice variable -> the rest of its backing array (up to cap)
 }
 
 func (c *fnCtx) lostAt(n ast.Node, format string, args ...any) {
@@ -533,7 +546,12 @@ func fnGenerate(f *ast.File, specs []string) (string, []string) {
 		}
 	}
 	var lostMsgs []string
+	g.externs = map[string]bool{}
 	for _, sp := range specs {
+		if strings.HasPrefix(sp, "extern:") {
+			g.externs[strings.TrimPrefix(sp, "extern:")] = true
+			continue
+		}
 		fn := &fnFunc{spec: sp, name: sp}
 		if i := strings.IndexByte(sp, '.'); i >= 0 {
 			fn.recv, fn.name = sp[:i], sp[i+1:]
@@ -613,7 +631,8 @@ func (g *fnGen) translate(fn *fnFunc, emit func(*fnFunc)) {
 		return true
 	})
 	c := &fnCtx{g: g, fn: fn, vars: map[*ast.Object]*fnVar{}, fields: map[string]*fnVar{}, logs: map[string]*fnVar{},
-		cbs: map[string]*fnVar{}, used: map[string]bool{}, tparams: map[string]bool{}, elemT: map[string]*fnType{}}
+		cbs: map[string]*fnVar{}, used: map[string]bool{}, tparams: map[string]bool{}, elemT: map[string]*fnType{},
+		extras: map[string]*fnVar{}, fat: map[*fnVar]*fnVar{}}
 	c.function()
 	fn.state = 2
 }
